@@ -147,6 +147,12 @@ func init() {
 		"log.Println":              func(fr *frame, a []value) value { return nil },
 		"log.Print":                func(fr *frame, a []value) value { return nil },
 		"fmt.Fprintln":             fmtFprintln,
+		"fmt.Sprintf":              fmtDesym(1),
+		"fmt.Errorf":               fmtDesym(1),
+		"fmt.Fprintf":              fmtDesym(2),
+		"fmt.Sprint":               fmtDesym(0),
+		"fmt.Sprintln":             fmtDesym(0),
+		"fmt.Fprint":               fmtDesym(1),
 		"fmt.Println":              func(fr *frame, a []value) value { return tuple{0, iface{}} },
 		"fmt.Printf":               func(fr *frame, a []value) value { return tuple{0, iface{}} },
 		"internal/godebug.New":     func(fr *frame, a []value) value { return (*value)(nil) },
@@ -538,3 +544,28 @@ func (i *interpreter) findMethod(t types.Type, name string) *ssa.Function {
 var _ = sort.Strings
 var _ = strconv.Itoa
 var _ = os.Getenv
+
+// fmtDesym wraps a fmt function: symbolic operands are rendered as the
+// placeholder text "<sym>" (message texts are never compared by the
+// harnesses), then the real body is interpreted.
+func fmtDesym(argsIdx int) externalFn {
+	return func(fr *frame, a []value) value {
+		if vs, ok := a[argsIdx].([]value); ok {
+			var cp []value
+			for k, e := range vs {
+				if it, ok := e.(iface); ok && containsSym(it.v) {
+					if cp == nil {
+						cp = append([]value{}, vs...)
+					}
+					cp[k] = iface{t: types.Typ[types.String], v: "<sym>"}
+				}
+			}
+			if cp != nil {
+				a = append([]value{}, a...)
+				a[argsIdx] = cp
+			}
+		}
+		fr.i.skipExt = true
+		return call(fr.i, fr.caller, token.NoPos, fr.i.curExtFn, a)
+	}
+}
